@@ -120,6 +120,32 @@ FIXED_PROGRAMS: List[Program] = [
                       Bin('/', Var('d'), Bin('-', Var('f', off=-4), Num('3'))))),),
 ]
 
+# (history, program): programs parsed / built EARLIER in the same process, then the program under test.  The earlier
+# ones share texts with it -- the same characters once blanks are removed but another split into tokens, the same names
+# at other offsets, the same left-hand side with another right-hand side, a side text met first in another role -- so
+# that anything the parser or builder remembers between calls (a memo keyed too coarsely) is visible as a wrong result.
+def _p(*eqs):
+    return tuple(eqs)
+
+
+HISTORY_PAIRS: List[tuple] = []
+for _a, _b in [
+    (_p(Eq(Var('Y'), Not(Var('X')))), _p(Eq(Var('Y'), Var('notX')))),
+    (_p(Eq(Var('Y'), BoolOp('and', Var('A'), Var('B')))), _p(Eq(Var('Y'), Var('AandB')))),
+    (_p(Eq(Var('Y'), BoolOp('or', Var('A'), Var('B')))), _p(Eq(Var('Y'), Var('AorB')))),
+    (_p(Eq(Var('Y'), IfE(Var('X'), Var('Z'), Var('W')))), _p(Eq(Var('Y'), Var('XifZelseW')))),
+    (_p(Eq(Var('Y'), Bin('+', Var('X', off=-1), Var('Z')))), _p(Eq(Var('Y'), Bin('+', Var('X'), Var('Z', off=-1))))),
+    (_p(Eq(Var('Y'), Bin('+', Var('X'), Var('Z', off=-1)))), _p(Eq(Var('Y'), Bin('-', Bin('*', Var('a', 'p'), Var('W', off=1)), Var('e', 'e'))))),
+    (_p(Eq(Var('Y'), Var('C'))), _p(Eq(Var('C'), Bin('+', Bin('*', Var('a', 'p'), Var('Y', off=-1)), Var('G'))))),
+    (_p(Eq(Var('Y'), Bin('*', Var('X'), Num('2')))), _p(Eq(Var('Y'), Bin('*', Var('X', 'p'), Num('2'))))),
+    (_p(Eq(Var('Y'), Call('exp', (Var('X'),)))), _p(Eq(Var('Y'), Bin('*', Var('exp'), Var('X'))))),
+    (_p(Eq(Var('A'), Bin('+', Var('B'), Num('1'))), Eq(Var('B'), Var('X'))), _p(Eq(Var('B'), Bin('+', Var('A'), Num('1'))), Eq(Var('A'), Var('X')))),
+]:
+    HISTORY_PAIRS.append(((_a,), _b))
+    HISTORY_PAIRS.append(((_b,), _a))
+    HISTORY_PAIRS.append(((_b, _b), _b))    # and simply the same program for the third time
+
+
 VERBATIM_PROGRAMS: List[Program] = [
     # partial verbatim fragments are inserted untouched, inner spacing included (seeded change C01_r2mut1)
     (Eq(Var('Y'), Bin('*', Var('X'), Verb("len('a  b')", expr=Num('4')))),),
